@@ -75,6 +75,38 @@ func c01Generate(c *fw.Ctx, maxPoints int) *c01Setup {
 func runC01(c *fw.Ctx) {
 	r := c.Rand
 	s := c01Generate(c, 300)
+	if c.Case%2 == 1 {
+		// odd cases: some values arrive as arrays. zenodb inserts the first element with the point and every
+		// further element as a point of its own carrying only that field; each of them must be aggregated once.
+		arrays := 0
+		for i := range s.points {
+			if r.Intn(8) != 0 {
+				continue
+			}
+			for _, f := range gen.ValFields {
+				switch v := s.points[i].Vals[f].(type) {
+				case float64:
+					arr := []float64{v}
+					for k := 0; k < 1+r.Intn(3); k++ {
+						arr = append(arr, float64(r.Intn(241)-40)/4)
+					}
+					s.points[i].Vals[f] = arr
+					arrays++
+				case int:
+					arr := []int{v}
+					for k := 0; k < 1+r.Intn(3); k++ {
+						arr = append(arr, r.Intn(41)-8)
+					}
+					s.points[i].Vals[f] = arr
+					arrays++
+				}
+				if r.Intn(2) == 0 {
+					break
+				}
+			}
+		}
+		c.Obs("array_values", int64(arrays))
+	}
 	c.HashAdd(describeTables(s.specs), len(s.points))
 	for i := range s.points {
 		c.HashAdd(s.points[i].TS.UnixNano())
